@@ -48,6 +48,7 @@ THEOREMS = [
     "HedVerif.C14.hedId_exact",
     "HedVerif.C14.hedId_malformed",
     "HedVerif.C14.hedId_zero_flagged",
+    "HedVerif.C14.siUnitModifier_not_a_tag_attribute_old",
     "HedVerif.C14.itemExists_silent_of_found",
 ]
 BUDGET = {"quick": 400, "thorough": 3000}
@@ -754,8 +755,157 @@ def gen_dup_seeds(rng, ms, plural, full):
     return out
 
 
+SEC_LABEL = {"tags": "Tags", "unitClasses": "UnitClasses", "units": "Units", "unitModifiers": "UnitModifiers",
+             "valueClasses": "ValueClasses", "attributes": "Attributes", "properties": "Properties"}
+DOMAIN_NEW = {"tagDomain": "tags", "unitClassDomain": "unitClasses", "unitDomain": "units",
+              "unitModifierDomain": "unitModifiers", "valueClassDomain": "valueClasses"}
+DOMAIN_OLD = {"unitClassProperty": "unitClasses", "unitProperty": "units", "unitModifierProperty": "unitModifiers",
+              "valueClassProperty": "valueClasses"}
+HARMLESS_VALUE = {"suggestedTag": "Event", "relatedTag": "Event", "isPartOf": "Event", "rooted": "Event",
+                  "allowedCharacter": "letters", "conversionFactor": "1.0", "unitClass": "timeUnits",
+                  "valueClass": "nameClass", "defaultUnits": "s"}
+
+
+def own_gen83(ms):
+    h = ms["header"]
+    v = h["withStandard"] or (h["version"] if not h["library"] else "")
+    return bool(v and vkey(v) >= (8, 3, 0)) or any(r[0] == "elementDomain" for r in ms["secs"]["properties"])
+
+
+def own_valid_sections(ms):
+    """attribute name -> sections in which it is declared valid, read from the properties of its definition:
+    >= 8.3: tagDomain / unitClassDomain / unitDomain / unitModifierDomain / valueClassDomain, elementDomain = everywhere;
+    < 8.3: unitClassProperty / unitProperty / unitModifierProperty / valueClassProperty, an attribute with none of the
+    four is a tag attribute, elementProperty = everywhere.  Attribute and property definitions take element-wide
+    attributes only (attribute definitions also take the property names, which are not attribute definitions)."""
+    new = own_gen83(ms)
+    out = {}
+    for name, props, *_ in ms["secs"]["attributes"]:
+        pn = [p for p, _ in props]
+        if name in out:
+            continue
+        if ("elementDomain" if new else "elementProperty") in pn:
+            out[name] = set(SECS)
+            continue
+        table = DOMAIN_NEW if new else DOMAIN_OLD
+        secs = {table[p] for p in pn if p in table}
+        if not new and not any(p in DOMAIN_OLD for p in pn):
+            secs.add("tags")
+        out[name] = secs
+    return out
+
+
+def raises_in(a, sec):
+    """pairs where the checker selected for the attribute itself raises on that entry class (tag_is_placeholder_check on a
+    non-tag, unit_exists outside unit classes): check_compliance raises, nothing is reported"""
+    return (a in ("takesValue", "unitClass", "valueClass") and sec != "tags") or (a == "defaultUnits" and sec != "unitClasses")
+
+
+def gen_undeclared_sweep(rng, ms):
+    """every attribute x every section in which it is not declared (one entry each), plus one control per attribute in a
+    section where it is declared; packed so that each schema load carries one seeded attribute per entry"""
+    valid = own_valid_sections(ms)
+    secs = ms["secs"]
+    todo = {sec: [] for sec in SECS}
+    for a, vs in valid.items():
+        for sec in SECS:
+            if not secs[sec]:
+                continue
+            if sec not in vs and not raises_in(a, sec):
+                todo[sec].append((a, True))
+        # (no declared control for `rooted`: on a tag it is checked at load time - HedFileError in a standard schema)
+        ok = [sec for sec in SECS if sec in vs and secs[sec] and not raises_in(a, sec) and a != "rooted"]
+        if ok:
+            todo[ok[0]].append((a, False))
+    raising = [(a, sec) for a, vs in valid.items() for sec in SECS if secs[sec] and sec not in vs and raises_in(a, sec)]
+    per_load = {}
+    for sec in SECS:
+        cand = [i for i, r in enumerate(secs[sec]) if not r[0].endswith("/#")]
+        if not cand or not todo[sec]:
+            continue
+        order = rng.sample(cand, min(len(cand), 12))
+        pos = 0
+        for a, flag in todo[sec]:
+            # the next entry in turn that does not carry the attribute yet (only matters for the declared controls)
+            for step in range(len(order)):
+                i = order[(pos + step) % len(order)]
+                if a not in dict(map(tuple, secs[sec][i][1])):
+                    break
+            else:
+                continue
+            per_load.setdefault(pos // len(order), []).append(
+                {"t": sec, "i": i, "a": a, "v": HARMLESS_VALUE.get(a), "expect_flag": flag, "entry": secs[sec][i][0]})
+            pos += 1
+    loads = []
+    for k in sorted(per_load):
+        edits, seen = [], set()
+        for e in per_load[k]:                        # one seeded attribute per entry and load
+            if (e["t"], e["i"]) in seen:
+                per_load.setdefault(max(per_load) + 1, []).append(e)
+                continue
+            seen.add((e["t"], e["i"]))
+            edits.append(e)
+        loads.append({"k": "edits", "l": edits})
+    by_attr = {}
+    for a, sec in raising:
+        i = next(i for i, r in enumerate(secs[sec]) if not r[0].endswith("/#"))
+        by_attr.setdefault(a, []).append({"t": sec, "i": i, "a": a, "v": HARMLESS_VALUE.get(a), "expect_flag": None,
+                                          "entry": secs[sec][i][0]})
+    loads += [{"k": "edits", "l": l, "raising": True} for l in by_attr.values()]
+    return loads
+
+
+def seed_xml_edits(root, sd, els):
+    undos = []
+    for e in sd["l"]:
+        el = els[e["t"]][e["i"]]
+        ch = _new_attr(el, e["t"], e["a"], e["v"])
+        undos.append((el, ch))
+    return lambda: [el.remove(ch) for el, ch in undos]
+
+
+def compare_edits(ctx, name, sd, mres, root, els, gen):
+    """a load with several foreign (or, as controls, declared) attributes, one per entry"""
+    case = {"schema": name, "seed": sd}
+    undo = seed_xml_edits(root, sd, els)
+    try:
+        sch = impl_load(root)
+        on, off = impl_obs(sch, True), impl_obs(sch, False)
+    except Exception as e:
+        ctx.count(f"undeclared-sweep:impl-raises:{type(e).__name__}")
+        ctx.case((name, json.dumps(sd, sort_keys=True)), nontrivial=False)
+        if not any(i[0] == "PYTHON_RAISES" for i in mres["on"]):
+            ctx.disagree("Compliance.check ∘ edits = check_compliance (implementation raised)", case, sorted(mres["on"])[:6],
+                         f"{type(e).__name__}: {e}"[:300])
+        return
+    finally:
+        undo()
+    ctx.case((name, json.dumps(sd, sort_keys=True)), nontrivial=True)
+    if sorted(mres["on"]) != on or sorted(mres["off"]) != off:
+        ctx.disagree("Compliance.check ∘ edits = check_compliance ∘ from_string (code, severity, section, entry, attribute)",
+                     case, {"on": [x for x in sorted(mres["on"]) if x not in on][:6], "off": [x for x in sorted(mres["off"]) if x not in off][:6]},
+                     {"on": [x for x in on if x not in mres["on"]][:6], "off": [x for x in off if x not in mres["off"]][:6]})
+    for e, mvalid in zip(sd["l"], mres.get("valid", [])):
+        if e["expect_flag"] is None:
+            continue
+        key = f"undeclared-sweep:{'>=8.3' if gen else '<8.3'}:{e['a']}->{e['t']}:{'undeclared' if e['expect_flag'] else 'declared'}"
+        ctx.count(key)
+        one = {"schema": name, "seed": {"k": "edits", "l": [e]}}
+        if mvalid == e["expect_flag"]:
+            ctx.disagree("validAttrs = sections read from the attribute definition's properties", one, {"valid": mvalid}, e)
+        for label, got in (("on", on), ("off", off)):
+            hit = ["SCHEMA_ATTRIBUTE_INVALID", 1, SEC_LABEL[e["t"]], e["entry"], ""] in got
+            if hit != e["expect_flag"]:
+                ctx.violation("attribute-not-declared-for-section-wrong-verdict", one,
+                              {"attribute": e["a"], "section": e["t"], "expected_flagged": e["expect_flag"], "warnings": label,
+                               "reported_for_entry": [i for i in got if i[3] == e["entry"]][:4]})
+                break
+
+
 def wire(sd):
     """the request form of a seed (sections by name; `v: null` = valueless attribute)"""
+    if sd["k"] == "edits":
+        return {"k": "edits", "l": [{"t": e["t"], "i": e["i"], "a": e["a"], "v": e["v"]} for e in sd["l"]]}
     if sd["k"] == "dupAt":
         return {"k": "dupAt", "t": sd["t"], "e": sd["e"]}
     d = {"k": sd["k"], "i": sd["i"], "t": sd.get("t", "tags"), "a": sd.get("a", ""), "v": sd.get("v")}
@@ -864,7 +1014,7 @@ def compare_case(ctx, name, sd, mres, root, els=None, gen=None):
     return on
 
 
-def run_schema(ctx, sess, name, seeded, n, full, per=None, controls=True):
+def run_schema(ctx, sess, name, seeded, n, full, per=None, controls=True, sweep=False):
     from hed.schema.hed_schema_entry import pluralize
     root = ET.parse(schema_xml.bundled()[name]).getroot()
     ms = read_model_schema(root, pluralize.plural)
@@ -873,6 +1023,8 @@ def run_schema(ctx, sess, name, seeded, n, full, per=None, controls=True):
     if seeded:
         seeds += gen_dup_seeds(ctx.rng, ms, pluralize.plural, full and name in SEEDED)
         seeds += gen_hedid_boundaries(ctx.rng, ms, env["ranges"], full and name in SEEDED)
+    if sweep:
+        seeds += gen_undeclared_sweep(ctx.rng, ms)
     ans = mbatch(ctx, [{"op": "c14.run", "schema": ms, "env": env, "seeds": [wire(s) for s in seeds]}])[0]
     if "bad-op" in ans:
         raise RuntimeError(f"model rejected {name}: {ans}")
@@ -892,7 +1044,10 @@ def run_schema(ctx, sess, name, seeded, n, full, per=None, controls=True):
     ctx.count(f"gen83={ans['gen83']}")
     els = elements(root)
     for sd, mres in zip(seeds, ans["seeds"]):
-        compare_case(ctx, name, sd, mres, root, els, ans["gen83"])
+        if sd["k"] == "edits":
+            compare_edits(ctx, name, sd, mres, root, els, ans["gen83"])
+        else:
+            compare_case(ctx, name, sd, mres, root, els, ans["gen83"])
         ctx.check_time()
     return ms, env
 
@@ -965,6 +1120,12 @@ def run(ctx):
                      "another library, from library_data.json; expected flagged iff outside the closed interval [start, end] "
                      "(verify_tag_id: new_id < start or new_id > end), whatever the truthiness of the number; entries without a "
                      "previous id in every tier, with one (synthetic predecessor: also flagged when different) in the thorough tier")
+    ctx.notes.append("attribute-not-declared sweep: every attribute definition x every section in which our own reading of its "
+                     "properties (old style: unitClassProperty / unitProperty / unitModifierProperty / valueClassProperty, none = "
+                     "tag attribute, elementProperty = everywhere; >= 8.3: the *Domain properties) does not declare it, one entry "
+                     "each, plus one declared control per attribute, packed one seeded attribute per entry and load; quick: 8.2.0 "
+                     "and 8.3.0, thorough: all nine schemas; pairs whose own checker raises on that entry class (class attributes "
+                     "on non-tags, defaultUnits outside unit classes) are only compared for 'both raise'; histogram undeclared-sweep:*")
     ctx.notes.append("hed cache = scratch folder pre-populated from the bundled schema_data (offline)")
     full = not ctx.quick()
     n = 2 if ctx.quick() else 30
@@ -972,9 +1133,10 @@ def run(ctx):
     try:
         for name in RELEASED:
             if name in SEEDED:
-                run_schema(ctx, sess, name, True, n, full, per=None if full else 1, controls=full)
+                run_schema(ctx, sess, name, True, n, full, per=None if full else 1, controls=full,
+                           sweep=full or name in ("8.2.0", "8.3.0"))
             else:
-                run_schema(ctx, sess, name, full, 3, False)
+                run_schema(ctx, sess, name, full, 3, False, sweep=full)
     finally:
         sess.close()
     if full:
@@ -1007,6 +1169,11 @@ def replay(ctx, rec):
             print("model:", ans["base"], "\nimpl: ", impl_obs(sch, True))
             return
         mres = ans["seeds"][0]
+        if sd["k"] == "edits":
+            compare_edits(ctx, name, sd, mres, root, elements(root), ans["gen83"])
+            print("edits:", [(e["a"], e["t"], e["entry"], e["expect_flag"]) for e in sd["l"]], "model valid:", mres.get("valid"))
+            print("model on:", sorted(mres["on"])[:6])
+            return
         undo = seed_xml(root, sd)
         sch = impl_load(root)
         undo()
